@@ -527,3 +527,15 @@ def x04(run):
     return _growth_finish(run, assumptions=["the clock is bracketed by the harness (now0 <= time.Now() in the call <= now1)",
                                             "host name, interface addresses, net.SplitHostPort and net.ParseIP are environment facts",
                                             "certificate fields are read back with crypto/x509 (trusted parser)"])
+
+
+@prop("X05", "Trace_JsonWalk")
+def x05(run):
+    """jsonpb: the hex <-> base64 tree walks (transcribed, TLC-generated trees) and Marshal / Unmarshal built on them."""
+    run.build()
+    run.mc("MC_JsonWalk")
+    cases = run.gen("Gen_JsonWalk", env={"GEN_TIER": run.tier, "GEN_MOD": "8"})
+    trace, _ = run.exec("X05", cases=cases)
+    run.validate("Trace_JsonWalk", trace)
+    return _growth_finish(run, assumptions=["the protobuf JSON reader / writer (github.com/OpenBazaar/jsonpb) and encoding/json are environment functions",
+                                            "the walks are observed through the verif hooks VerifConvertHex / VerifConvertBase64 and through the public entry points"])
